@@ -23,7 +23,7 @@ INVARIANT RoleFoldsBothSides
 CHECK_DEADLOCK FALSE
 """
 
-ALPH_ASCII = ['a', 'A', 'b', 'B', 'z', 'Z', '1', '-', '_', '.', ':']
+ALPH_ASCII = ['a', 'A', 'b', 'B', 'z', 'Z', '1', '-', '_', '.', ':', ',', ';', '+', '=', '/', '@', '#', '!', '&', '*', '~', '|', '^', '$', '?', '<', '>', '[', ']', '{', '}', "'", '"', '\\']
 ALPH_WIDE = ['é', 'É', 'ü', 'Ü', 'ñ', 'Ñ', 'ж', 'Ж', 'λ', 'Λ', 'ø', 'Ø', 'å', 'Å', 'ç', 'Ç', 'д', 'Д']
 
 
@@ -94,6 +94,19 @@ def run(ctx):
             target[key] = x[cut:]
             if rng.random() < 0.2:
                 target = {}
+        if rng.random() < 0.15:
+            # several placeholders in one template, with literal separators
+            segs = [x[i:i + max(1, len(x) // 3)] for i in range(0, len(x), max(1, len(x) // 3))] or [x]
+            parts, target = [], {}
+            for si, sg in enumerate(segs):
+                if rng.random() < 0.6:
+                    key = 'k%d' % si
+                    parts.append(ev.ph(key))
+                    target[key] = sg
+                else:
+                    parts.append(sg)
+            if rng.random() < 0.15 and target:
+                target.pop(sorted(target)[0])          # one of the keys is missing: denies
         parts = [p for p in parts if p != '']
         if not parts:
             parts = [x]
